@@ -187,6 +187,8 @@ func checkC03(c *Ctx) error {
 	writeTree(sameRoot, Tree{"regex-assembly/include/tools.ra": "curl\nperl\nwget\n", "regex-assembly/exclude/tools.ra": "perl\n", "regex-assembly/exclude/fps.ra": "wget\n"})
 	jobs = append(jobs, job{what: "file name present in include/ and exclude/", root: sameRoot, text: "##!> include tools\n", same: "curl\nperl\nwget\n"},
 		job{what: "file name present in include/ and exclude/ (include-except)", root: sameRoot, text: "##!> include-except tools fps\n", same: "curl\nperl\n"})
+	jobs = append(jobs, job{what: "white-space class followed by a range that starts at the blank (two rewrites, fixed order)", root: root,
+		text: "x[\\s -/]y\n", same: "x[\\s -/]y\n"})
 	jobs = append(jobs, job{what: "flag set", text: "##!+ s\n##!+ i\na.\nb\n", same: "##!+ is\na.\nb\n", root: root})
 	var unstable int64
 	parallel(len(jobs), 16, func(i int) {
